@@ -17,7 +17,11 @@ func try(a, b string) {
 }
 
 func main() {
+	try("80", "443")
+	try("80-90", "100-110")
 	try("80-90", "85-100")
+	try("80", "80")
+	try("1-62", "62")
 	try("60000-65535", "1-65535")
 	try("65535", "65535")
 	try("63", "63")
